@@ -38,7 +38,7 @@ def universes():
     # a chain of tasks whose type is defined in the program's main module (as in a user's script)
     us.append(dict(mk(2, [[], [1]], [1, 1], [UNL], [True], [], [], 'serial', 2), tfmt=['pickle'], mainmod=True))
     us = [dict(u, twins=False) for u in us]
-    us.append(dict(mk(5, [[], [], [], [], []], [1, 1, 1, 1, 1], [UNL], [True], [], [], 'serial', 2), tfmt=['pickle'], twins=True))
+    us.append(dict(mk(6, [[], [], [], [], [], []], [1, 1, 1, 1, 1, 1], [UNL], [True], [], [], 'serial', 2), tfmt=['pickle'], twins=True))
     return us
 
 
@@ -101,7 +101,7 @@ def validate(traces, scratch, par=harness.NPROC):
     return verdicts, states
 
 
-def run(prop: str, tier: str) -> int:
+def run(prop: str, tier: str, write_evidence: bool = True, scale: float = 1.0):
     t0 = time.time()
     seed = harness.seed_from_env()
     rep = harness.Report(prop)
@@ -118,7 +118,7 @@ def run(prop: str, tier: str) -> int:
             return 2
         hists = []
         for cfgname, num, depth in T['sims']:
-            hists += sample_histories(cfgname, num, depth, uf, scratch, seed)
+            hists += sample_histories(cfgname, max(20, int(num * scale)), depth, uf, scratch, seed)
         jobs = []
         for k, (ui, hist) in enumerate(hists):
             ops = []
@@ -128,16 +128,20 @@ def run(prop: str, tier: str) -> int:
                     backend = 'spawn' if x < T['spawn_prob'] else ('fork' if x < T['spawn_prob'] + T['fork_prob'] else 'serial')
                     if us[ui].get('mainmod') and x < 0.5:
                         backend = 'spawn'      # what matters for a main-module type is crossing into a spawned interpreter
-                    ops.append({'op': 'run', 'req': h['req'], 'bust': bool(h['bust']), 'backend': backend,
+                    ops.append({'op': 'run', 'req': h['req'], 'bust': bool(h['bust']), 'backend': backend, 'fail': h.get('fail', []),
                                 'newproc': bool(i > 0 and rnd.random() < T['newproc_prob'])})
                 else:
                     ops.append({'op': 'uncache', 'ts': h['ts']})
             provider = T['providers'][k % len(T['providers'])]
-            jobs.append({'id': f'{prop}-h{k}', 'u': us[ui], 'ops': ops, 'provider': provider, 'shape_seed': rnd.randrange(10 ** 5)})
+            failing = any(o.get('fail') for o in ops)
+            jobs.append({'id': f'{prop}-h{k}', 'u': us[ui], 'ops': ops, 'provider': provider, 'shape_seed': rnd.randrange(10 ** 5),
+                         # the same task objects (and Lab object) reused from call to call in half of the histories;
+                         # a fifth of the histories with a failing call use continue_on_failure=False
+                         'reuse': rnd.random() < 0.5, 'cof': not (failing and rnd.random() < 0.2)})
         # Labs without a storage never persist anything
         for k in range(T['none_jobs']):
             ui, hist = hists[rnd.randrange(len(hists))]
-            ops = [({'op': 'run', 'req': h['req'], 'bust': bool(h['bust']), 'backend': 'serial', 'newproc': False}
+            ops = [({'op': 'run', 'req': h['req'], 'bust': bool(h['bust']), 'backend': 'serial', 'newproc': False, 'fail': h.get('fail', [])}
                     if h['op'] == 'run' else {'op': 'uncache', 'ts': h['ts']}) for h in hist]
             jobs.append({'id': f'{prop}-n{k}', 'u': dict(us[ui], storage=False), 'ops': ops, 'provider': 'none',
                          'shape_seed': rnd.randrange(10 ** 5)})
@@ -174,6 +178,8 @@ def run(prop: str, tier: str) -> int:
             'violating_histories': nviol,
         }
         rc = rep.finish()
+        if not write_evidence:
+            return rc, cov
         harness.write_evidence(prop, tier, seed, 'model_checking', cov, time.time() - t0, nviol, [
             'values are compared structurally ([tid, epoch, dependency values]); byte-level pickle/json fidelity is trusted',
             'result_meta is compared as the (start, duration) pair recorded by the execution that stored the entry'])
